@@ -32,7 +32,7 @@ def counts(out):
 def main():
     a = sys.argv[1:]
     base, pid, k = a[0], a[1], a[2]
-    opt = {"--tests": "", "--demo-dest": "", "--mod-file": "", "--mod-line": "", "--filter": "", "--features": "", "--demo-crate": ""}
+    opt = {"--tests": "", "--demo-dest": "", "--mod-file": "", "--mod-line": "", "--filter": "", "--features": "", "--demo-crate": "", "--demo-tests": ""}
     hook = False
     i = 3
     while i < len(a):
@@ -67,8 +67,8 @@ def main():
         open(dest, "w").write(open(f"{out}/demo.rs").read())
         with open(os.path.join(wt, opt["--mod-file"]), "a") as fh:
             fh.write("\n" + opt["--mod-line"].replace("\\n", "\n") + "\n")
-        dcrate = opt["--demo-crate"] or opt["--tests"].split("-p")[1].split()[0]
-        r = sh(f"cargo nextest run --offline --build-jobs 6 --test-threads 4 --no-fail-fast {opt['--tests']}{feat} {opt['--filter']} 2>&1 | tail -60", wt, env, log)
+        demo_sel = opt["--demo-tests"] or f"{opt['--tests']}{feat} {opt['--filter']}"
+        r = sh(f"cargo nextest run --offline --build-jobs 6 --test-threads 4 --no-fail-fast {demo_sel} 2>&1 | tail -60", wt, env, log)
         p, f = counts(r.stdout)
         res["demo_with_patch"] = {"passed": p, "failed": f}
         res["demo_fails_with_patch"] = f is not None and f > 0
@@ -76,7 +76,7 @@ def main():
         if r.returncode != 0:
             res["revert_failed"] = True
             return res
-        r = sh(f"cargo nextest run --offline --build-jobs 6 --test-threads 4 --no-fail-fast {opt['--tests']}{feat} {opt['--filter']} 2>&1 | tail -60", wt, env, log)
+        r = sh(f"cargo nextest run --offline --build-jobs 6 --test-threads 4 --no-fail-fast {demo_sel} 2>&1 | tail -60", wt, env, log)
         p, f = counts(r.stdout)
         res["demo_without_patch"] = {"passed": p, "failed": f}
         res["demo_passes_without_patch"] = p is not None and p > 0 and f == 0
